@@ -44,7 +44,7 @@ CHECKS = {
                  "validation key, injected error, slower than the timeout), interleaved by the seeded scheduler at the verif yield "
                  "points of the handler and of the reload path. Non-trivial = at least one query overlapped a reload or the scheduler "
                  "pre-empted an enabled task; distinct = distinct hash of the full (task, yield point) schedule."
-                 " One run in 4 is a WHOLE-PROCESS run: the handler lives in a real fbserver.Server as cmd/dnsrocks builds it; reload requests travel as control files ('switchdb' with the new path, 'reload') plus the file-system events inotify would report, as events for the database path through the -watchdb loop, or as SIGHUP through Server.ReloadDB, all through the real watcher loops on simulated event channels; Server.LogMapAge and Server.DumpBackendStats run on their 10 s tickers and keep running after shutdown; a watcher loop that returns an error shuts the server down as Server.WatchDBAndReload does; shutdown is Server.Shutdown. A reload request that ends a watcher loop (and with it the server) is a violation of 'a failed reload leaves the server answering as if nothing happened'."),
+                 " One run in 4 is a WHOLE-PROCESS run: the handler lives in a real fbserver.Server as cmd/dnsrocks builds it; reload requests travel as control files ('switchdb' with the new path, 'reload') plus the file-system events inotify would report, as events for the database path through the -watchdb loop, or as SIGHUP through Server.ReloadDB, all through the real watcher loops on simulated event channels; Server.LogMapAge and Server.DumpBackendStats run on their 10 s tickers and keep running after shutdown; a watcher loop that returns an error shuts the server down as Server.WatchDBAndReload does; shutdown is Server.Shutdown. One run in three has the response cache on, with the queries concentrated on one or two keys (same generation oracles). In half of the runs one to three queries are STALLED at one of the handler's yield points for 9-311 ms of fake time (a slow or descheduled handler goroutine), so that whole reloads fit between two steps of one query. In one of six runs whose operator calls Reload itself the control path is not a directory, so that removing the processed control file fails at the very end of an otherwise complete reload: such a reload counts as completed. A reload request that ends a watcher loop (and with it the server) is a violation of 'a failed reload leaves the server answering as if nothing happened'."),
         "components": {
             "real": REAL_SERVER + ["fbserver.Server (NewServer, ReloadDB, LogMapAge, DumpBackendStats, PeriodicDBReload, Shutdown), FBDNSDB.watchDBAndReload / watchControlDirAndReload / getNewDBPath / cleanupSignalFile in whole-process runs", "dnsserver.FBDNSDB.ServeDNS (cache off)", "db answer/location code", "cdb driver on real CDB files (mmap)",
                                    "rocksdb driver on real RocksDB directories (secondary; in-process primary applying diffs), v1 and v2 keys",
@@ -58,8 +58,8 @@ CHECKS = {
             "RocksDB's own background threads are real and unscheduled; only logical content is observed",
             "publish and reload are never concurrent with each other (each reload has a definite target)",
         ],
-        "required_probes": {"quick": ["query_overlaps_reload", "reload_ok", "reload_timed_out", "validation_failed", "reload_error", "whole_process_run", "reload_requested_by_switchdb_file", "reload_requested_by_reload_file", "reload_requested_by_sighup", "reload_requested_by_db_event"],
-                            "thorough": ["query_overlaps_reload", "reload_ok", "reload_timed_out", "validation_failed", "reload_error", "decoy_published", "lowlevel_catchup_failed", "whole_process_run", "reload_requested_by_switchdb_file", "reload_requested_by_reload_file", "reload_requested_by_sighup", "reload_requested_by_db_event"]},
+        "required_probes": {"quick": ["query_overlaps_reload", "reload_ok", "reload_timed_out", "validation_failed", "reload_error", "whole_process_run", "reload_requested_by_switchdb_file", "reload_requested_by_reload_file", "reload_requested_by_sighup", "reload_requested_by_db_event", "response_cache_on", "reload_completed_but_cleanup_failed"],
+                            "thorough": ["query_overlaps_reload", "reload_ok", "reload_timed_out", "validation_failed", "reload_error", "decoy_published", "lowlevel_catchup_failed", "whole_process_run", "reload_requested_by_switchdb_file", "reload_requested_by_reload_file", "reload_requested_by_sighup", "reload_requested_by_db_event", "response_cache_on", "reload_completed_but_cleanup_failed"]},
     },
     "C12": {
         "test": "TestC12",
@@ -68,7 +68,8 @@ CHECKS = {
         "rule": ("as C05 with the response cache ON (LRU size 1..1024, WRS timeout 0/5 s), queries concentrated on few cache keys (different "
                  "locations, types, classes, EDNS/ECS, mixed case), clock jumps across the 1000 s entry lifetime. Every response is compared with "
                  "a cache-off handler of the same backend kind on the generation whose stamp it carries, and the reload/query history must be "
-                 "linearizable as a register. Non-trivial = at least one cache hit or a query overlapping a reload; distinct = schedule hash."),
+                 "linearizable as a register. In one of six runs whose operator calls Reload itself the removal of the control file fails at the end of every otherwise complete reload (the control path is not a directory): "
+                 "the switch has been made, so the reload counts as completed and nothing of the previous generation may be served afterwards. Non-trivial = at least one cache hit or a query overlapping a reload; distinct = schedule hash."),
         "components": {
             "real": REAL_SERVER + ["dnsserver.FBDNSDB.ServeDNS with the hashicorp LRU response cache", "cdb and rocksdb drivers on real files",
                                    "reference: cache-off FBDNSDB per generation, same backend kind, outside the bubble"],
@@ -80,8 +81,8 @@ CHECKS = {
             "interleavings are explored at the granularity of the verif yield points (one sits immediately before the cache insertion, one between database swap and purge)",
             "weighted answers are compared for membership in the declared candidate set only",
         ],
-        "required_probes": {"quick": ["cache_hit", "cache_expired", "query_overlaps_reload", "reload_ok"],
-                            "thorough": ["cache_hit", "cache_expired", "query_overlaps_reload", "reload_ok"]},
+        "required_probes": {"quick": ["cache_hit", "cache_expired", "query_overlaps_reload", "reload_ok", "reload_completed_but_cleanup_failed"],
+                            "thorough": ["cache_hit", "cache_expired", "query_overlaps_reload", "reload_ok", "reload_completed_but_cleanup_failed"]},
     },
     "C19": {
         "test": "TestC19",
@@ -140,7 +141,8 @@ CHECKS = {
                  "one real rdb.RDB, pre-empted by the seeded scheduler before the write lock and between the read and the write of every "
                  "read-modify-write; up to 3 low-level RocksDB calls fail in the fault population. One caller: model comparison over the whole key "
                  "alphabet after every operation; several callers: porcupine against the map-of-lists model (failed op = no-op). 1 in 8 runs ends with "
-                 "backup + restore into another directory and a full dump comparison. Non-trivial = more than two scheduling steps; distinct = schedule hash."),
+                 "backup + restore into another directory and a full dump comparison; 1 run in 6 has a private store, and there a history of one caller may also close the store and open it again "
+                 "(a clean restart: RocksDB replays its log and flushes it into table files), after which the whole alphabet must read as before, and may empty a key with one batch; half of those histories are mostly about one key. A Close of a private store that fails is a violation. Non-trivial = more than two scheduling steps; distinct = schedule hash."),
         "components": {
             "real": ["rdb.RDB Add/Del/ExecuteBatch/Find/ForEach, Batch sort/merge/integrate, value-list codec", "RocksDB (cgo) primary database",
                      "rdb.Backup / rdb.Restore (RocksDB backup engine)"],
@@ -149,7 +151,7 @@ CHECKS = {
             "not_run": ["RocksDB background threads are real and unscheduled"],
         },
         "assumptions": ["the order of values inside one key is compared as a multiset, except that a single Add must append at the end (the batch path sorts with an unstable sort)"],
-        "required_probes": {"quick": ["preempted_inside_read_modify_write", "backup_restore"], "thorough": ["preempted_inside_read_modify_write", "backup_restore"]},
+        "required_probes": {"quick": ["preempted_inside_read_modify_write", "backup_restore", "store_reopened", "batch_emptied_a_key"], "thorough": ["preempted_inside_read_modify_write", "backup_restore", "store_reopened", "batch_emptied_a_key"]},
     },
     "C07": {
         "test": "TestC07",
@@ -166,7 +168,7 @@ CHECKS = {
                  "tier: 1 in 30 runs compiles 70000-100000 records on real parallelism with the hooks in perturbation mode so that the bulk loader "
                  "splits into several buckets; 1 run in 12 (both tiers) compiles 1500-4000 records in batch mode (batch size 5/20/40, parallelism 0/2/4/8) free-running on four "
                  "real threads, so that many small batches sharing hot keys are in flight and interleavings finer than the yield points are reached. "
-                 "Non-trivial = more than 3 lines; distinct = schedule hash + file seed."),
+                 "One file in three also holds lines of a single character (a record-type character or not), which every parser setting skips. Non-trivial = more than 3 lines; distinct = schedule hash + file seed."),
         "components": {
             "real": ["dnsdata.ParseStream / parse (scanner, worker pool)", "dnsdata/cdb.CreateCDBFromReader + go-cdb writer", "rdb.Compile: compileBuilder "
                      "(Builder, buckets, SST ingestion) and compileBatches (parallel ExecuteBatch under writeMutex)", "subnet rearranger (Accum.MarshalMap)", "RocksDB (cgo)"],
@@ -188,7 +190,9 @@ CHECKS = {
                  "multiset line diff with the real rdb.ApplyDiff on the real RocksDB and compares the full dump with a fresh compile of the target "
                  "(v1 and v2 keys). Fault population: an undeliverable line (delete of an absent value / absent key, malformed line, unknown "
                  "operation) at a seeded position, a failing low-level RocksDB call, or a reader error mid-diff - the call must fail and the dump must "
-                 "equal the dump before. Non-trivial = a non-empty diff was applied; distinct = pool seed + first selection + layout."),
+                 "equal the dump before. One chain in three (of those with two or more steps) sends all its diffs through ONE open updater, as a long-running publisher does; "
+                 "intermediate states are then read through that handle, and after the final Close the directory is read again and must still be the database of the last delivered file. "
+                 "Non-trivial = a non-empty diff was applied; distinct = pool seed + first selection + layout."),
         "components": {
             "real": ["rdb.ApplyDiff, dbdiff.Entry parsing/conversion, Batch integrate, value-list codec", "dnsdata preprocessor", "rdb.Compile (builder) for the start and the expected databases", "RocksDB (cgo)"],
             "stub": ["error-injecting wrapper around the updater's rdb.DBI"],
@@ -196,7 +200,7 @@ CHECKS = {
             "not_run": ["no scheduler: ApplyDiff is sequential; a concurrent secondary reader is not part of the property"],
         },
         "assumptions": ["equality is per key as a multiset of values; empty keys are absent"],
-        "required_probes": {"quick": ["diff_applied", "failed_diff_left_db_unchanged", "range_point_churn", "diff_larger_than_8192_lines"], "thorough": ["diff_applied", "failed_diff_left_db_unchanged", "range_point_churn", "diff_larger_than_8192_lines"]},
+        "required_probes": {"quick": ["diff_applied", "failed_diff_left_db_unchanged", "range_point_churn", "diff_larger_than_8192_lines", "chain_through_one_handle_closed_and_reread"], "thorough": ["diff_applied", "failed_diff_left_db_unchanged", "range_point_churn", "diff_larger_than_8192_lines", "chain_through_one_handle_closed_and_reread"]},
     },
     "C09": {
         "test": "TestC09",
@@ -221,6 +225,7 @@ CHECKS = {
     },
     "C11": {
         "test": "TestC11",
+        "race_tier": {"test": "TestC11Free", "race": True, "budget": {"quick": 6, "thorough": 120}},
         "level": "exploration",
         "budget": {"quick": 40, "thorough": 600},
         "rule": ("each evaluation declares 1-12 candidate addresses (weights 0, 1, 2, 3, 10, 1000, 2^32-1; untagged and two locations; both families) plus "
@@ -228,7 +233,8 @@ CHECKS = {
                  "the request context) with the package's random source seeded from the scenario, so a run is repeatable. Every response is checked: "
                  "count = min(max, visible positive-weight candidates), no repetition, only declared visible candidates, weight 0 never served while the "
                  "name still exists, at most one glue address per family. One run in ten adds 20000 draws with max answer 1 and a chi-square test "
-                 "against the weights at p < 1e-9. Non-trivial = more than one candidate; distinct = schedule hash + random seed."),
+                 "against the weights at p < 1e-9. A free-running tier (race_tier block) lets eight goroutines draw from the real shared source on real cores under the race detector: "
+                 "per-response invariants, race reports and proportionality of the pooled concurrent draws. Non-trivial = more than one candidate; distinct = schedule hash + random seed."),
         "components": {
             "real": ["db.Wrs weighted random sampling, db.lockedSource", "FindAnswer / AdditionalSectionForRecords", "dnsserver.FBDNSDB.ServeDNS, WithMaxAnswer", "cdb compiler and driver"],
             "stub": [],
@@ -248,7 +254,7 @@ CHECKS = {
                  "reporter calling ReportBackendStats, reload signals sent through ReloadChan by a task of their own (as Server.ReloadDB does on SIGHUP), the response cache on or off, and Close at a seeded position (after in-flight queries drained, "
                  "as the listeners do); violations are a quiescent state with unfinished tasks (deadlock), any panic, and any call that reaches a closed "
                  "storage back end (intercepted by the monitor; a crash on the real cgo/mmap back ends). Non-trivial = at least one pre-emption; "
-                 "distinct = schedule hash. One run in 3 is a WHOLE-PROCESS run: the handler lives in a real fbserver.Server as cmd/dnsrocks builds it; reload requests travel as control files ('switchdb' with the new path, 'reload') plus the file-system events inotify would report, as events for the database path through the -watchdb loop, or as SIGHUP through Server.ReloadDB, all through the real watcher loops on simulated event channels; Server.LogMapAge and Server.DumpBackendStats run on their 10 s tickers and keep running after shutdown; a watcher loop that returns an error shuts the server down as Server.WatchDBAndReload does; shutdown is Server.Shutdown. In those runs spurious and duplicated file-system events, an error on a watcher's error channel (inotify overflow) and a second Server.Shutdown (SIGTERM after a watcher-induced shutdown) are part of the fault space. Tier (b), data races: see the race_tier block of this evidence."),
+                 "distinct = schedule hash. One run in 3 is a WHOLE-PROCESS run: the handler lives in a real fbserver.Server as cmd/dnsrocks builds it; reload requests travel as control files ('switchdb' with the new path, 'reload') plus the file-system events inotify would report, as events for the database path through the -watchdb loop, or as SIGHUP through Server.ReloadDB, all through the real watcher loops on simulated event channels; Server.LogMapAge and Server.DumpBackendStats run on their 10 s tickers and keep running after shutdown; a watcher loop that returns an error shuts the server down as Server.WatchDBAndReload does; shutdown is Server.Shutdown. In those runs spurious and duplicated file-system events, an error on a watcher's error channel (inotify overflow) and a second Server.Shutdown (SIGTERM after a watcher-induced shutdown) are part of the fault space. Tier (b), data races: see the race_tier block of this evidence; it also reports a lock-up found by looking at the goroutine stacks (some goroutine of the repository waits for a sync lock and none is running, runnable, sleeping or in a system call, twice 5 s apart) - a criterion that does not depend on the clock."),
         "components": {
             "real": REAL_SERVER + ["FBDNSDB.PeriodicDBReload, ReportBackendStats, Close", "ServeDNS with and without cache", "cdb and rocksdb drivers",
                                    "fbserver.Server (NewServer, ReloadDB, LogMapAge, DumpBackendStats, PeriodicDBReload, Shutdown) and the watcher loops watchDBAndReload / watchControlDirAndReload in whole-process runs"],
@@ -268,10 +274,10 @@ CHECKS = {
                  "FBDNSDB) with 1-2 listener IPs of different max-answer settings on a simulated network, and lets 1-5 client tasks send up to 6 "
                  "queries each over UDP (no EDNS / 512 / 1232 / 4096) and TCP (several queries per connection), including ANY, whoami in lower and "
                  "mixed case, a message without a question and an answer larger than small UDP buffers; the network drops, duplicates, delays and "
-                 "reorders datagrams and cuts TCP writes into 1..100-byte segments with delays, all from the scenario's seed. Every delivered response "
+                 "reorders datagrams and cuts TCP writes into 1..100-byte segments with delays, and in one run in four lets Accept on a TCP listener fail with a temporary error (EMFILE-like) at seeded moments, all from the scenario's seed. Every delivered response "
                  "is compared (after the same wire round trip) with what the bare FBDNSDB.ServeDNS gives for that message, client address, protocol "
                  "and listener max-answer; size/TC rules, ANY refusal, failure for the question-less message, consistency of duplicates; after the "
-                 "last fault every outstanding query sent again must be answered within 5 simulated seconds. Non-trivial = at least one response "
+                 "last fault every outstanding query sent again must be answered within 5 simulated seconds, and (after accept errors) every TCP listener must still accept a connection and answer. Non-trivial = at least one response "
                  "compared; distinct = schedule hash."),
         "components": {
             "real": ["fbserver.NewServer/Start/Shutdown, serveMux, maxAnswerHandler, anyHandler, whoami.Handler", "miekg/dns.Server UDP and TCP read loops, framing, MsgAcceptFunc",
